@@ -23,12 +23,24 @@ const GENERATION = "v2"
 // hand-written types
 
 // Raw is an entity whose wire form is kept verbatim.
-type Raw struct{ JSON []byte }
+type Raw struct {
+	JSON []byte
+	// Unserializable makes MarshalRestLi return an error, Explode makes it panic (what a nil record nested in a generated
+	// type does): both stand for "what resource code returned cannot be serialized"
+	Unserializable, Explode bool
+}
 
 func (r *Raw) NewInstance() *Raw { return new(Raw) }
 func (r *Raw) MarshalRestLi(w restlicodec.Writer) error {
 	if r == nil {
 		return errors.New("nil Raw entity")
+	}
+	if r.Explode {
+		var nested *Raw
+		_ = nested.JSON[0] // nil dereference, like a generated marshaler reaching a nil nested record
+	}
+	if r.Unserializable {
+		return errors.New("kit: this entity cannot be serialized")
 	}
 	w.WriteRawBytes(r.JSON)
 	return nil
@@ -159,16 +171,18 @@ type Invocation struct {
 
 // Outcome scripts what resource code returns.
 type Outcome struct {
-	Err           error
-	Panic         any
-	DoPanic       bool
-	Status        int    // overrides ctx.ResponseStatus when non-zero
-	Body          []byte // entity JSON for methods returning one
-	NilEntity     bool   // return a typed nil entity without error
-	BatchStatuses map[string]int
-	BatchErrors   map[string]*common.ErrorResponse
-	BatchResults  map[string][]byte
-	CreatedID     string
+	Err            error
+	Panic          any
+	DoPanic        bool
+	Status         int    // overrides ctx.ResponseStatus when non-zero
+	Body           []byte // entity JSON for methods returning one
+	NilEntity      bool   // return a typed nil entity without error
+	Unserializable bool   // the returned entity's MarshalRestLi returns an error
+	Explode        bool   // the returned entity's MarshalRestLi panics
+	BatchStatuses  map[string]int
+	BatchErrors    map[string]*common.ErrorResponse
+	BatchResults   map[string][]byte
+	CreatedID      string
 }
 
 type Recorder struct {
@@ -256,9 +270,9 @@ func entityBody(o Outcome) *Raw {
 		return nil
 	}
 	if o.Body == nil {
-		return &Raw{JSON: []byte(`{"ok":true}`)}
+		return &Raw{JSON: []byte(`{"ok":true}`), Unserializable: o.Unserializable, Explode: o.Explode}
 	}
-	return &Raw{JSON: o.Body}
+	return &Raw{JSON: o.Body, Unserializable: o.Unserializable, Explode: o.Explode}
 }
 
 func batchResponse[V restlicodec.Marshaler](o Outcome, keys []string, mk func(k string) V) *common.BatchResponse[string, V] {
@@ -376,7 +390,7 @@ func registerFor[RPc restli.ResourcePathUnmarshaler[RPc], RPe restli.ResourcePat
 				if o.Err != nil {
 					return nil, o.Err
 				}
-				return &common.Elements[*Raw]{Elements: []*Raw{entityBody(Outcome{Body: o.Body})}}, nil
+				return &common.Elements[*Raw]{Elements: []*Raw{entityBody(Outcome{Body: o.Body, Unserializable: o.Unserializable, Explode: o.Explode})}}, nil
 			})
 		case "batch_get":
 			restli.RegisterBatchGet(s, segs, func(ctx *restli.RequestContext, rp RPc, keys []string, qp *BatchParams) (*common.BatchResponse[string, *Raw], error) {
@@ -456,7 +470,7 @@ func registerFor[RPc restli.ResourcePathUnmarshaler[RPc], RPe restli.ResourcePat
 			if o.Err != nil {
 				return nil, o.Err
 			}
-			return &common.Elements[*Raw]{Elements: []*Raw{entityBody(Outcome{Body: o.Body})}}, nil
+			return &common.Elements[*Raw]{Elements: []*Raw{entityBody(Outcome{Body: o.Body, Unserializable: o.Unserializable, Explode: o.Explode})}}, nil
 		})
 	}
 	for _, a := range rs.Actions {
